@@ -63,31 +63,29 @@ var redirects = map[string][2]string{
 func lookupExternal(i *interpreter, fn *ssa.Function, name string) externalFn {
 	if rd, ok := redirects[name]; ok {
 		target := i.lookupFunc(rd[0], rd[1])
-		i.w.e.noteIntercept("redirect:" + name + "->" + rd[1])
+		i.noteIntercept("redirect:" + name + "->" + rd[1])
 		return func(fr *frame, args []value) value {
 			return callSSA(fr.i, fr.caller, 0, target, args, nil)
 		}
 	}
 	if ext := externals[name]; ext != nil {
-		i.w.e.noteIntercept(name)
+		i.noteIntercept(name)
 		return ext
 	}
 	if i.p != nil && i.p.c != nil {
 		if ext := i.p.c.H.stubs[name]; ext != nil {
-			i.w.e.noteIntercept("stub:" + name)
+			i.noteIntercept("stub:" + name)
 			return ext
 		}
 	}
 	return nil
 }
 
-func (e *Engine) noteIntercept(name string) {
-	e.mu.Lock()
-	if e.intercepts == nil {
-		e.intercepts = map[string]int{}
+func (i *interpreter) noteIntercept(name string) {
+	if i.intercepts == nil {
+		i.intercepts = map[string]int{}
 	}
-	e.intercepts[name]++
-	e.mu.Unlock()
+	i.intercepts[name]++
 }
 
 func argStr(v value) string {
@@ -466,7 +464,11 @@ func init() {
 func rangePred(fr *frame, r *Term, rr runeRanges) value {
 	tt := fr.tt()
 	var ds []*Term
+	hi := umax(r) // syntactic upper bound of the rune term: prune the table
 	for _, x := range rr {
+		if uint64(x[0]) > hi && hi < 1<<31 {
+			break
+		}
 		lo, hi := tt.BV(32, uint64(uint32(x[0]))), tt.BV(32, uint64(uint32(x[1])))
 		if x[0] == x[1] {
 			ds = append(ds, tt.Eq(r, lo))
